@@ -227,6 +227,18 @@ class Universe:
             pred = lambda x: (len(x.name) + st["b"]) % 2 == 0  # noqa: E731
             cmp("getChildren(deep,predicate)", o.getChildren(deep=True, predicate=pred), [x for x in deep if pred(x)])
             cmp("iterChildren(generationNum=2,predicate)", list(o.iterChildren(generationNum=2, predicate=pred)), [x for x in self.walk_gen(o, 2) if pred(x)])
+            # the variants that also hand out the materials: each object is followed by its material, if it has one
+            def with_materials(objs):
+                out = []
+                for x in objs:
+                    out.append(x)
+                    if hasattr(x, "material"):
+                        out.append(x.material)
+                return out
+
+            cmp("getChildren(deep,includeMaterials,predicate)", o.getChildren(deep=True, includeMaterials=True, predicate=pred), with_materials([x for x in deep if pred(x)]))
+            cmp("iterChildrenWithMaterials(deep)", list(o.iterChildrenWithMaterials(deep=True)), with_materials(deep))
+            cmp("iterChildrenWithMaterials(generationNum=2,predicate)", list(o.iterChildrenWithMaterials(generationNum=2, predicate=pred)), with_materials([x for x in self.walk_gen(o, 2) if pred(x)]))
             comps = self.walk_components(o)
             cmp("iterComponents()", list(o.iterComponents()), comps)
             cmp("getComponents()", list(o.getComponents()), comps)
